@@ -35,6 +35,7 @@ CHECKS = {
             dict(pkg="seq", run="TestC12Codec", checks_quick=4000, checks_thorough=100000, shards_quick=4, shards_thorough=16, timeout_quick=300, timeout_thorough=1800),
             dict(pkg="seq", run="TestC12Alias", checks_quick=300, checks_thorough=5000, shards_quick=4, shards_thorough=16, timeout_quick=300, timeout_thorough=1800),
             dict(pkg="seq", run="TestC12CodecID", checks_quick=400, checks_thorough=4000, shards_quick=2, shards_thorough=8, timeout_quick=300, timeout_thorough=1800),
+            dict(kind="gofuzz", pkg="dmg", fuzz="FuzzDecode", thorough_only=True, fuzztime_thorough="60s", workers=8, timeout=600),
         ],
     ),
     "C15": dict(
@@ -158,6 +159,9 @@ CHECKS = {
             dict(pkg="dmg", run="TestC11Segments", checks_quick=250, checks_thorough=6000, shards_quick=6, shards_thorough=16, timeout_quick=600, timeout_thorough=3000),
             dict(pkg="dmg", run="TestC11Decode", checks_quick=2000, checks_thorough=50000, shards_quick=2, shards_thorough=8, timeout_quick=600, timeout_thorough=3000),
             dict(pkg="dmg", run="TestC11Lock", checks_quick=25, checks_thorough=300, shards_quick=4, shards_thorough=8, timeout_quick=600, timeout_thorough=3000),
+            dict(kind="gofuzz", pkg="dmg", fuzz="FuzzDecode", thorough_only=True, fuzztime_thorough="60s", workers=8, timeout=600),
+            dict(kind="gofuzz", pkg="dmg", fuzz="FuzzRecoverTail", thorough_only=True, fuzztime_thorough="90s", workers=8, timeout=600),
+            dict(kind="gofuzz", pkg="dmg", fuzz="FuzzSealedReader", thorough_only=True, fuzztime_thorough="60s", workers=8, timeout=600),
         ],
     ),
     "C09": dict(
